@@ -154,7 +154,7 @@ class MPIRun(LaunchMethod):
         task_cores = td.get('cores_per_rank', 1)
         task_gpus  = td.get('gpus_per_rank', 0.)
 
-        if '_dplace' in self.name and task_cores > 1:
+        if '_dplace' in self.name.lower() and task_cores > 1:
             # dplace pinning would disallow threads to map to other cores
             raise ValueError('dplace can not place threads [%d]' % task_cores)
 
@@ -169,14 +169,14 @@ class MPIRun(LaunchMethod):
             core_list.append(slot['cores'][0])
             # FIXME: inform this proc about the GPU to be used
 
-            if '_dplace' in self.name and save_list:
+            if '_dplace' in self.name.lower() and save_list:
                 assert (save_list == core_list), 'inhomog. core sets (dplace)'
 
             else:
                 save_list = core_list
 
         dplace = self._dplace
-        if '_dplace' in self.name:
+        if '_dplace' in self.name.lower():
             dplace += ' -c '
             dplace += ','.join(core_list)
 
